@@ -450,6 +450,7 @@ CONTROLS = [
     ("ctl_get_computed_key", "let tx = db.tx(false).unwrap(); let b = tx.get_bucket(\"b\").unwrap(); let v = { let k = format!(\"k{}\", 1); b.get(k.as_str()) }; sink(&v); let kv = { let k = format!(\"k{}\", 2).into_bytes(); b.get_kv(k.as_slice()) }; sink(&kv);"),
     ("ctl_named_iterators_at_commit", "let tx = db.tx(true).unwrap(); let b = tx.get_or_create_bucket(\"b\").unwrap(); let mut c = b.cursor(); c.seek(\"k1\"); let first = c.next(); sink(&first); let mut r = b.range(..); let _ = r.next(); let mut subs = b.cursor().to_buckets(); let _ = subs.next(); let mut pairs = b.range(..).to_kv_pairs(); let _ = pairs.next(); b.put(\"new\", \"v\").unwrap(); tx.commit().unwrap();"),
     ("ctl_byte_arrays_of_every_length", "let tx = db.tx(true).unwrap(); let b = tx.get_or_create_bucket(\"b\").unwrap(); b.put([0u8; 0], [7u8; 0]).unwrap(); b.put([1u8; 1], [7u8; 5]).unwrap(); b.put([2u8; 2], [7u8; 10]).unwrap(); b.put([3u8; 3], [7u8; 15]).unwrap(); b.put([4u8; 4], [7u8; 3]).unwrap(); b.put([5u8; 5], [7u8; 8]).unwrap(); b.put([6u8; 6], [7u8; 13]).unwrap(); b.put([7u8; 7], [7u8; 1]).unwrap(); b.put([8u8; 8], [7u8; 6]).unwrap(); b.put([9u8; 9], [7u8; 11]).unwrap(); b.put([10u8; 10], [7u8; 16]).unwrap(); b.put([11u8; 11], [7u8; 4]).unwrap(); b.put([12u8; 12], [7u8; 9]).unwrap(); b.put([13u8; 13], [7u8; 14]).unwrap(); b.put([14u8; 14], [7u8; 2]).unwrap(); b.put([15u8; 15], [7u8; 7]).unwrap(); b.put([16u8; 16], [7u8; 12]).unwrap(); b.put(7u128.to_be_bytes(), 9u64.to_be_bytes()).unwrap(); b.put(3u32.to_le_bytes(), 1u16.to_be_bytes()).unwrap(); let _ = b.get([1u8; 16]); let _ = b.get_kv(5u128.to_be_bytes()); let _ = b.delete([2u8; 2]); let _ = b.create_bucket([9u8; 16]); let _ = tx.get_or_create_bucket(1u64.to_be_bytes()); drop(b); tx.commit().unwrap();"),
+    ("ctl_error_type_crosses_threads", "fn need_send_sync<T: Send + Sync + 'static>() {} need_send_sync::<Error>(); need_send_sync::<DB>(); need_send_sync::<OpenOptions>(); let d2 = db.clone(); let r: std::result::Result<u64, Error> = std::thread::spawn(move || -> std::result::Result<u64, Error> { let tx = d2.tx(false)?; let b = tx.get_bucket(\"b\")?; Ok(b.next_int()) }).join().unwrap(); let boxed: std::result::Result<u64, Box<dyn std::error::Error + Send + Sync>> = (|| { let tx = db.tx(false)?; let b = tx.get_bucket(\"missing\")?; Ok(b.next_int()) })(); sink(&r); sink(&boxed);"),
     ("ctl_iterate", "let tx = db.tx(false).unwrap(); let b = tx.get_bucket(\"b\").unwrap(); for d in b.cursor() { match d { Data::Bucket(n) => sink(&n.name()), Data::KeyValue(kv) => sink(&kv.kv()) } } for kv in b.range(..).to_kv_pairs() { sink(&kv); }"),
 ]
 
